@@ -95,6 +95,9 @@ struct Response {
 struct Success {
     static std::optional<Success> fromDom(const QDomElement &);
     void toXml(QXmlStreamWriter *writer) const;
+
+    // additional data with success (RFC 6120, 6.4.6), e.g. the SCRAM server signature
+    QByteArray additionalData;
 };
 
 }  // namespace Sasl
@@ -381,6 +384,9 @@ public:
     virtual void setCredentials(const QXmpp::Private::Credentials &) = 0;
     virtual QXmpp::Private::SaslMechanism mechanism() const = 0;
     virtual std::optional<QByteArray> respond(const QByteArray &challenge) = 0;
+    /// Whether the exchange is complete from the client's point of view. Mechanisms that authenticate
+    /// the server (SCRAM) only return true after the server has proved knowledge of the password.
+    virtual bool isComplete() const { return true; }
 
     static bool isMechanismAvailable(QXmpp::Private::SaslMechanism, const QXmpp::Private::Credentials &);
     static std::unique_ptr<QXmppSaslClient> create(const QString &mechanism, QObject *parent = nullptr);
@@ -522,10 +528,12 @@ public:
     void setCredentials(const QXmpp::Private::Credentials &) override;
     QXmpp::Private::SaslMechanism mechanism() const override { return { m_mechanism }; }
     std::optional<QByteArray> respond(const QByteArray &challenge) override;
+    bool isComplete() const override { return m_serverVerified; }
 
 private:
     QXmpp::Private::SaslScramMechanism m_mechanism;
     int m_step;
+    bool m_serverVerified = false;
     QString m_password;
     uint32_t m_dklen;
     QByteArray m_gs2Header;
